@@ -70,7 +70,7 @@ pub fn packet(first: u8, body: &[u8]) -> Vec<u8> {
     out
 }
 
-const WORDS: [&str; 8] = ["", "a", "t/1", "topic/é", "x/y/z", "日本", "r", "0123456789abcdef"];
+const WORDS: [&str; 11] = ["", "a", "t/1", "topic/é", "x/y/z", "日本", "r", "0123456789abcdef", "$share/grp/jobs/#", "$shared/x", "$SYS/#"];
 
 pub fn rand_str(r: &mut Rng) -> Vec<u8> {
     if r.chance(1, 12) {
@@ -537,6 +537,21 @@ pub fn encode_cases(r: &mut Rng, count: usize) -> Vec<String> {
                 line.n(cmd).n(cap);
                 line.0.extend(b.0.iter());
                 out.push(line.line());
+            }
+        }
+    }
+    // directed: every combination of subscription options on an ordinary, a shared and a look-alike filter (what the
+    // application asks for goes out as asked, whatever the filter looks like)
+    for filter in [&b"t/1"[..], &b"$share/grp/jobs/#"[..], &b"$shared/x"[..]] {
+        for q in 0..3u64 {
+            for rh in 0..3u64 {
+                for bits in 0..4u64 {
+                    let mut line = Emit::default();
+                    line.n(6).n(256).n(7).props(&[]).n(2);
+                    line.bytes(b"plain").n(q).b(false).b(false).n(0);
+                    line.bytes(filter).n(q).b(bits & 1 == 1).b(bits & 2 == 2).n(rh);
+                    out.push(line.line());
+                }
             }
         }
     }
